@@ -832,17 +832,17 @@ def run(tier, seed, replay=None):
                 R.failure(f"bodies with disjoint convex hulls (sep_cert): intersection={r['intersection']} contacts={r['n_contacts']} "
                           f"w12={r['w12']} w21={r['w21']}", c, site="find_contact_surface")
     # ---------------- order independence, completeness, bodies bookkeeping (Python oracles)
-    has_f18 = any(k.get("id") == "F18" for k in R.known)
+    has_f18 = any(k.get("id") == "F26" for k in R.known)
     f18_hits = [0]
 
     def polygon_failure(what, case, t1, t2, plane, site):
         """a reported polygon that is not the whole exact intersection / depends on the order.  Known
-        finding F18 (if recorded) covers exactly the inputs whose exact polygon has a vertex on >= 3 of
+        finding F26 (if recorded) covers exactly the inputs whose exact polygon has a vertex on >= 3 of
         the 8 face planes (coincident / concurrent face lines); anything else is a violation."""
         if has_f18 and hg.concurrent_lines(t1, t2, plane):
             f18_hits[0] += 1
-            kf = [k for k in R.known if k.get("id") == "F18"][0]
-            R.known_finding("F18", kf.get("what", what)[:300])
+            kf = [k for k in R.known if k.get("id") == "F26"][0]
+            R.known_finding("F26", kf.get("what", what)[:300])
         else:
             R.failure(what, case, site=site)
 
@@ -979,7 +979,7 @@ def run(tier, seed, replay=None):
     R.cov["body_contacts_judged"] = body_contacts
     R.cov["order_flag_differences_on_zero_area_contacts"] = order_skipped
     R.cov["areas_checked_against_exact_polygon"] = area_checked
-    R.cov["known_finding_F18_inputs"] = f18_hits[0]
+    R.cov["known_finding_F26_inputs"] = f18_hits[0]
     R.cov["input_histogram"] = hist
     R.cov["intersecting_results_by_class"] = n_inter
     R.cov["correspondence"] = stats
